@@ -262,7 +262,7 @@ int ops_trav(int n, char **a) {
         H3Error e = H3_EXPORT(compactCells)(cells, out, cnt);
         verif_alloc_fail_at = 0; verif_alloc_trace_on = 0;
         if (e) printf("err %d", (int)e); else printf("ok");
-        printf(" live=%ld calls=%ld | %s\n", verif_alloc_live, verif_alloc_calls, verif_alloc_trace);
+        printf(" live=%ld calls=%ld failed=%ld badfree=%ld | %s\n", verif_alloc_live, verif_alloc_calls, verif_alloc_failed, verif_alloc_bad_free, verif_alloc_trace);
         free(out); free(cells);
         return 1;
     }
